@@ -64,7 +64,8 @@ SOURCE_CHECKS = ["JanetModel.Props.C06.current_source_checks"]
 ENV = dict(os.environ, ASAN_OPTIONS="detect_leaks=0:abort_on_error=0", UBSAN_OPTIONS="print_stacktrace=1")
 NPROC = int(os.environ.get("VERIF_JOBS", "16"))
 LAST_STDOUT_TAIL = {}
-GEOM = {}   # program id -> (log points with a wrapped items ring, of these with count >= limit, max ring capacity)
+GEOM = {}   # program id -> (log points with a wrapped items ring, of these with count >= limit, max ring capacity,
+            #                forced collections, heap payloads made, payload contents read back)
 
 
 # ---------------------------------------------------------------------------------------------- running things
@@ -81,8 +82,8 @@ def run_harness_chunk(hx, items):
     for line in out.decode(errors="replace").splitlines():
         if line.startswith("S "):
             g = line.split()
-            if len(g) == 5:
-                GEOM[g[1]] = (int(g[2]), int(g[3]), int(g[4]))
+            if len(g) >= 5:
+                GEOM[g[1]] = tuple(int(x) for x in g[2:8])
             continue
         if not line.startswith("P "):
             continue
@@ -141,11 +142,12 @@ def load_corpus():
             if fn.endswith(".json"):
                 with open(os.path.join(d, fn)) as f:
                     j = json.load(f)
-                prog = {"limits": j["limits"], "fibers": [[tuple_op(o) for o in ops] for ops in j["fibers"]]}
-                if j.get("sups"):
-                    prog["sups"] = j["sups"]
-                out.append((fn[:-5], prog))
+                out.append((fn[:-5], prog_from_json(j)))
     return out
+
+
+def prog_from_json(j):
+    return P.keep_opts(j, {"limits": j["limits"], "fibers": [[tuple_op(o) for o in ops] for ops in j["fibers"]]})
 
 
 def tuple_op(o):
@@ -179,39 +181,56 @@ def gen_programs(ctx, quick, boost):
             dist[tag] = "%d of %d" % (len(idxs), size)
         for ix in idxs:
             items.append(("%s.%d" % (tag, ix), 0, P.family_nth(nch, total, ix, max_clauses=mc)))
+    # complete family of single-fiber pumps: EVERY give/take sequence of length <= n that one fiber runs on one channel
+    # of capacity 1..cap without waiting; heap payloads (kind per value), a collection forced at every log point.  The
+    # items ring (4 slots, 10 after the first resize) is walked round: every (head, tail) geometry with count <= cap occurs.
+    pcap, plen = (3, 12) if quick and boost == 1 else (3, 14) if quick else (4, 16)
+    npump = 0
+    for cap in range(1, pcap + 1):
+        for n in range(1, plen + 1):
+            for k, seq in enumerate(P.pump_sequences(cap, n)):
+                items.append(("P%d.%d.%d" % (cap, n, k), 0, P.pump_program(cap, seq, heap=5, gc=3 if (k + n) % 16 == 0 else 1)))
+                npump += 1
+    dist["P: ALL non-waiting single-fiber give/take sequences, capacity 1..%d, length 1..%d, heap payloads, forced collections" % (pcap, plen)] = "all %d" % npump
+
+    def heapify(k, prog):
+        """every 4th random program: heap payloads + a collection at every log point (every 32nd: at every safepoint too)"""
+        return P.with_heap(prog, 5 if k % 8 else 1 + (k // 8) % 4, 3 if k % 32 == 0 else 1) if k % 4 == 0 else prog
     nrand = (4000 if quick else 120000) * boost
     r = ctx.rng.fork("random")
     for k in range(nrand):
         big = k % 5 == 4
         prog = P.random_program(r, max_fibers=6 if big else 4, max_ops=6 if big else 4, max_ch=3, max_cap=2 if not big else 3,
                                 max_clauses=3 if not big else 4)
-        items.append(("R%d" % k, r.below(1 << 31), prog))
+        items.append(("R%d" % k, r.below(1 << 31), heapify(k, prog)))
     dist["random(<=4x4x3, every 5th <=6x6x3)"] = nrand
     # cancellation and timers: ev/cancel of another fiber, ev/sleep with a duration, ev/with-deadline around the next
     # operations - these make stale run-queue tasks (a fiber scheduled twice before it runs) and stale timers
     ntime = (3000 if quick else 80000) * boost
     r = ctx.rng.fork("timing")
     for k in range(ntime):
-        items.append(("T%d" % k, r.below(1 << 31), P.random_program(r, max_fibers=4, max_ops=5 if k % 3 else 4, timing=True)))
+        items.append(("T%d" % k, r.below(1 << 31), heapify(k, P.random_program(r, max_fibers=4, max_ops=5 if k % 3 else 4, timing=True))))
     dist["random with ev/cancel, ev/sleep d, ev/with-deadline"] = ntime
     # selects that name one channel in several clauses can match themselves (known finding select-self-match-...)
     nself = (1500 if quick else 30000) * boost
     r = ctx.rng.fork("selfmatch")
     for k in range(nself):
-        items.append(("S%d" % k, r.below(1 << 31), P.random_program(r, max_ch=2, same_chan=True)))
+        items.append(("S%d" % k, r.below(1 << 31), heapify(k, P.random_program(r, max_ch=2, same_chan=True))))
     dist["random with same-channel selects"] = nself
     # long single-fiber give/take pumps that walk the items ring buffer round (head > tail, resizes) before a select /
     # give on the full channel: the capacity rule must not depend on where the ring happens to be
     nring = (700 if quick else 30000) * boost
     r = ctx.rng.fork("ringwrap")
     for k in range(nring):
-        items.append(("W%d" % k, r.below(1 << 31), P.ringwrap_program(r)))
+        items.append(("W%d" % k, r.below(1 << 31), P.with_heap(P.ringwrap_program(r), 5 if k % 8 else 1 + (k // 8) % 4, 3 if k % 16 == 0 else 1)))
     nsup = (1200 if quick else 40000) * boost
     r = ctx.rng.fork("supervised")
     for k in range(nsup):
-        items.append(("V%d" % k, r.below(1 << 31), P.supervised_program(r)))
+        items.append(("V%d" % k, r.below(1 << 31), heapify(k, P.supervised_program(r))))
     dist["random with supervisor channels (ev/go f nil chan), listeners and closes of the supervisor channel"] = nsup
-    dist["ring-wrap pumps (1-2 channels, caps 1..3, up to 11 values pumped through before a select/give on the full channel)"] = nring
+    dist["ring-wrap pumps (1-2 channels, caps 1..3, up to 11 values pumped through before a select/give on the full channel, then drained; heap payloads, forced collections)"] = nring
+    dist["of the random families: every 4th program with heap payloads and a collection forced at every log point"] = sum(
+        1 for pid, _, p in items if p.get("heap") and pid[0] in "RTSV")
     return items, dist
 
 
@@ -252,7 +271,7 @@ def minimise(hx, prog, seed, kind):
         sups = cur.get("sups") or [None] * nf
 
         def mk(fibers, sv=None):
-            d = {"limits": cur["limits"], "fibers": fibers}
+            d = P.keep_opts({k: v for k, v in cur.items() if k != "sups"}, {"limits": cur["limits"], "fibers": fibers})
             sv = sups if sv is None else sv
             if any(x is not None for x in sv):
                 d["sups"] = list(sv)
@@ -507,6 +526,17 @@ def run(ctx, only=None):
             "max_items_ring_capacity": max([GEOM.get(pid, (0, 0, 0))[2] for pid, _, _ in items] or [0]),
             "programs_whose_items_ring_was_resized_beyond_4": sum(1 for pid, _, _ in items if GEOM.get(pid, (0, 0, 0))[2] > 4),
         },
+        "heap_and_collections": {
+            "programs_with_heap_payloads": sum(1 for _, _, p in items if p.get("heap")),
+            "programs_with_collection_at_every_log_point": sum(1 for _, _, p in items if p.get("gc", 0) & 1),
+            "programs_with_collection_at_every_safepoint": sum(1 for _, _, p in items if p.get("gc", 0) & 2),
+            "forced_collections_at_log_points": sum(GEOM.get(pid, (0,) * 6)[3] for pid, _, _ in items if len(GEOM.get(pid, ())) >= 6),
+            "heap_payloads_made": sum(GEOM.get(pid, (0,) * 6)[4] for pid, _, _ in items if len(GEOM.get(pid, ())) >= 6),
+            "payload_contents_read_back": sum(GEOM.get(pid, (0,) * 6)[5] for pid, _, _ in items if len(GEOM.get(pid, ())) >= 6),
+            "heap_programs_with_wrapped_items_ring": sum(1 for pid, _, p in items if p.get("heap") and GEOM.get(pid, (0, 0, 0))[0] > 0),
+            "log_points_with_wrapped_ring_in_heap_programs": sum(GEOM.get(pid, (0, 0, 0))[0] for pid, _, p in items if p.get("heap")),
+            "payload_kinds": "1 string, 2 buffer, 3 array @[id string], 4 tuple [id string]; `mix` = kind chosen per value",
+        },
     }
     return ctx.finish("proof", cov, assumptions=[
         "model = lean/JanetModel/Ev (hand-written mirror of ev.c's single-threaded channel code); tie = regenerated Gen/Ev.lean + event-log equality",
@@ -522,8 +552,6 @@ def replay(ctx, path):
         r = json.load(f)
     print(json.dumps({k: r.get(k) for k in ("kind", "program", "oracle", "implementation_verdict")}, indent=1))
     if r.get("prog"):
-        prog = {"limits": r["prog"]["limits"], "fibers": [[tuple_op(o) for o in ops] for ops in r["prog"]["fibers"]]}
-        if r["prog"].get("sups"):
-            prog["sups"] = r["prog"]["sups"]
+        prog = prog_from_json(r["prog"])
         return run(ctx, only=[("replay", r.get("rng_seed", 0), prog)])
     return run(ctx)
